@@ -26,30 +26,33 @@ import (
 
 var vfGR = schema.GroupResource{Group: "galaxy.k8s.io", Resource: "floatingips"}
 
-type vfStore struct {
-	objs    map[string]*v1alpha1.FloatingIP
-	calls   int
-	faultAt int    // the calls-th API call fails cleanly (0 = no fault); symbolic
-	only    string // if non-empty only calls of this kind count for fault injection
-	faulted bool
-	log     []string
-	hook    func(kind, name string) // optional interference window, called at the start of every API call
+type VfStore struct {
+	Objs    map[string]*v1alpha1.FloatingIP
+	Calls   int
+	FaultAt int    // the Calls-th API call fails cleanly (0 = no fault); symbolic
+	Only    string // if non-empty only calls of this kind count for fault injection
+	Faulted bool
+	Hook    func(kind, name string) // optional interference window, called at the start of every API call
+	Tick    func(kind, name string) error // if set, replaces the built-in fault counter (shared fault budget of a larger world)
 }
 
-func vfNewStore() *vfStore { return &vfStore{objs: map[string]*v1alpha1.FloatingIP{}} }
+func VfNewStore() *VfStore { return &VfStore{Objs: map[string]*v1alpha1.FloatingIP{}} }
 
-func (s *vfStore) fault(kind, name string) error {
-	if s.hook != nil {
-		h := s.hook
-		s.hook = nil // at most one interference, no nesting
+func (s *VfStore) fault(kind, name string) error {
+	if s.Hook != nil {
+		h := s.Hook
+		s.Hook = nil // at most one interference, no nesting
 		h(kind, name)
 	}
-	if s.only != "" && s.only != kind {
+	if s.Tick != nil {
+		return s.Tick(kind, name)
+	}
+	if s.Only != "" && s.Only != kind {
 		return nil
 	}
-	s.calls++
-	if s.faultAt == s.calls {
-		s.faulted = true
+	s.Calls++
+	if s.FaultAt == s.Calls {
+		s.Faulted = true
 		return fmt.Errorf("injected fault: %s %s", kind, name)
 	}
 	return nil
@@ -69,65 +72,65 @@ func vfCopy(in *v1alpha1.FloatingIP) *v1alpha1.FloatingIP {
 	return out
 }
 
-type vfClient struct {
+type VfClient struct {
 	crd_clientset.Interface
-	store *vfStore
+	Store *VfStore
 }
 
-func (c *vfClient) GalaxyV1alpha1() galaxyv1alpha1.GalaxyV1alpha1Interface {
-	return &vfGalaxy{store: c.store}
+func (c *VfClient) GalaxyV1alpha1() galaxyv1alpha1.GalaxyV1alpha1Interface {
+	return &vfGalaxy{Store: c.Store}
 }
 
 type vfGalaxy struct {
 	galaxyv1alpha1.GalaxyV1alpha1Interface
-	store *vfStore
+	Store *VfStore
 }
 
-func (g *vfGalaxy) FloatingIPs() galaxyv1alpha1.FloatingIPInterface { return &vfFIPs{store: g.store} }
+func (g *vfGalaxy) FloatingIPs() galaxyv1alpha1.FloatingIPInterface { return &vfFIPs{Store: g.Store} }
 
 type vfFIPs struct {
 	galaxyv1alpha1.FloatingIPInterface
-	store *vfStore
+	Store *VfStore
 }
 
 func (f *vfFIPs) Create(ctx context.Context, obj *v1alpha1.FloatingIP, opts metav1.CreateOptions) (*v1alpha1.FloatingIP, error) {
-	if err := f.store.fault("create", obj.Name); err != nil {
+	if err := f.Store.fault("create", obj.Name); err != nil {
 		return nil, err
 	}
-	if _, ok := f.store.objs[obj.Name]; ok {
+	if _, ok := f.Store.Objs[obj.Name]; ok {
 		return nil, apierrors.NewAlreadyExists(vfGR, obj.Name)
 	}
-	f.store.objs[obj.Name] = vfCopy(obj)
+	f.Store.Objs[obj.Name] = vfCopy(obj)
 	return vfCopy(obj), nil
 }
 
 func (f *vfFIPs) Update(ctx context.Context, obj *v1alpha1.FloatingIP, opts metav1.UpdateOptions) (*v1alpha1.FloatingIP, error) {
-	if err := f.store.fault("update", obj.Name); err != nil {
+	if err := f.Store.fault("update", obj.Name); err != nil {
 		return nil, err
 	}
-	if _, ok := f.store.objs[obj.Name]; !ok {
+	if _, ok := f.Store.Objs[obj.Name]; !ok {
 		return nil, apierrors.NewNotFound(vfGR, obj.Name)
 	}
-	f.store.objs[obj.Name] = vfCopy(obj)
+	f.Store.Objs[obj.Name] = vfCopy(obj)
 	return vfCopy(obj), nil
 }
 
 func (f *vfFIPs) Delete(ctx context.Context, name string, opts metav1.DeleteOptions) error {
-	if err := f.store.fault("delete", name); err != nil {
+	if err := f.Store.fault("delete", name); err != nil {
 		return err
 	}
-	if _, ok := f.store.objs[name]; !ok {
+	if _, ok := f.Store.Objs[name]; !ok {
 		return apierrors.NewNotFound(vfGR, name)
 	}
-	delete(f.store.objs, name)
+	delete(f.Store.Objs, name)
 	return nil
 }
 
 func (f *vfFIPs) Get(ctx context.Context, name string, opts metav1.GetOptions) (*v1alpha1.FloatingIP, error) {
-	if err := f.store.fault("get", name); err != nil {
+	if err := f.Store.fault("get", name); err != nil {
 		return nil, err
 	}
-	obj, ok := f.store.objs[name]
+	obj, ok := f.Store.Objs[name]
 	if !ok {
 		return nil, apierrors.NewNotFound(vfGR, name)
 	}
@@ -135,17 +138,17 @@ func (f *vfFIPs) Get(ctx context.Context, name string, opts metav1.GetOptions) (
 }
 
 func (f *vfFIPs) List(ctx context.Context, opts metav1.ListOptions) (*v1alpha1.FloatingIPList, error) {
-	if err := f.store.fault("list", ""); err != nil {
+	if err := f.Store.fault("list", ""); err != nil {
 		return nil, err
 	}
 	var names []string
-	for n := range f.store.objs {
+	for n := range f.Store.Objs {
 		names = append(names, n)
 	}
 	sort.Strings(names)
 	list := &v1alpha1.FloatingIPList{}
 	for _, n := range names {
-		list.Items = append(list.Items, *vfCopy(f.store.objs[n]))
+		list.Items = append(list.Items, *vfCopy(f.Store.Objs[n]))
 	}
 	return list, nil
 }
@@ -181,11 +184,11 @@ func vPool(nodeSubnets []string, gateway, subnet string, vlan uint16, ranges ...
 	return p
 }
 
-const vNumTopologies = 4
+const VNumTopologies = 4
 
-// vTopology returns fresh pool structs (ConfigurePool writes into them), the configured IPs in
+// VTopology returns fresh pool structs (ConfigurePool writes into them), the configured IPs in
 // ascending order and the node subnets that occur.
-func vTopology(t int) (pools []*FloatingIPPool, ips []string, nodeSubnets []string) {
+func VTopology(t int) (pools []*FloatingIPPool, ips []string, nodeSubnets []string) {
 	switch t {
 	case 0: // T1: one pool, one node subnet, one range of three addresses
 		return []*FloatingIPPool{vPool([]string{"10.0.1.0/24"}, "10.1.0.1", "10.1.0.0/24", 2, "10.1.0.10~10.1.0.12")},
@@ -212,7 +215,7 @@ func vTopology(t int) (pools []*FloatingIPPool, ips []string, nodeSubnets []stri
 
 type vWorld struct {
 	topo        int
-	store       *vfStore
+	store       *VfStore
 	ipam        *crdIpam
 	ips         []string
 	nodeSubnets []string
@@ -223,9 +226,9 @@ var vUids = []string{"", "u1", "u2"}
 var vNodes = []string{"", "n1", "n2"}
 
 func vNewWorld(topo int) *vWorld {
-	w := &vWorld{topo: topo, store: vfNewStore()}
-	_, w.ips, w.nodeSubnets = vTopology(topo)
-	w.ipam = NewCrdIPAM(&vfClient{store: w.store}, nil).(*crdIpam)
+	w := &vWorld{topo: topo, store: VfNewStore()}
+	_, w.ips, w.nodeSubnets = VTopology(topo)
+	w.ipam = NewCrdIPAM(&VfClient{Store: w.store}, nil).(*crdIpam)
 	return w
 }
 
@@ -253,14 +256,14 @@ func (w *vWorld) symbolicStore(allowReserved bool) {
 		if allowReserved && nondetBool() {
 			obj.Labels[constant.ReserveFIPLabel] = ""
 		}
-		w.store.objs[ip] = obj
+		w.store.Objs[ip] = obj
 	}
 }
 
 func (w *vWorld) configure() error {
-	pools, _, _ := vTopology(w.topo)
+	pools, _, _ := VTopology(w.topo)
 	err := w.ipam.ConfigurePool(pools)
-	verifRotateMap(w.ipam.unallocatedFIPs)
+	verifRotateMap(w.ipam.unallocatedFIPs, "AllocateInSubnet")
 	return err
 }
 
@@ -279,7 +282,7 @@ func vAttrOf(obj *v1alpha1.FloatingIP) (node, uid string) {
 func (w *vWorld) agree() bool {
 	ok := true
 	for _, ip := range w.ips {
-		obj, inStore := w.store.objs[ip]
+		obj, inStore := w.store.Objs[ip]
 		fip, inAlloc := w.ipam.allocatedFIPs[ip]
 		ufip, inUnalloc := w.ipam.unallocatedFIPs[ip]
 		ok = verifAnd(ok, inStore == inAlloc)
@@ -332,7 +335,7 @@ func vSnapEqual(a, b []vSnap) bool {
 
 // restart models a process restart: a new IPAM instance is configured from the same store.
 func (w *vWorld) restart() error {
-	w.ipam = NewCrdIPAM(&vfClient{store: w.store}, nil).(*crdIpam)
+	w.ipam = NewCrdIPAM(&VfClient{Store: w.store}, nil).(*crdIpam)
 	return w.configure()
 }
 
@@ -342,4 +345,71 @@ func vSubnet(s string) *net.IPNet {
 		panic(err)
 	}
 	return n
+}
+
+
+// ---------------------------------------------------------------- exports for harnesses in other packages
+
+// VerifEntry is one row of the in-memory allocation table.
+type VerifEntry struct {
+	IP          string
+	Allocated   bool
+	Key         string
+	Policy      uint16
+	Node, Uid   string
+	Reserved    bool
+	NodeSubnets []string
+	Mask        string
+	Gateway     string
+	Vlan        uint16
+}
+
+// VerifDump lists the table of an IPAM built by NewCrdIPAM for the given addresses.
+func VerifDump(i IPAM, ips []string) []VerifEntry {
+	ci := i.(*crdIpam)
+	out := make([]VerifEntry, len(ips))
+	for k, ip := range ips {
+		e := VerifEntry{IP: ip}
+		f, ok := ci.allocatedFIPs[ip]
+		if ok {
+			e.Allocated, e.Key, e.Policy, e.Node, e.Uid = true, f.Key, f.Policy, f.NodeName, f.PodUid
+			_, e.Reserved = f.Labels[constant.ReserveFIPLabel]
+		} else {
+			f = ci.unallocatedFIPs[ip]
+		}
+		if f != nil && f.pool != nil {
+			e.NodeSubnets = f.pool.nodeSubnets.List()
+			e.Mask, e.Gateway, e.Vlan = net.IP(f.pool.Mask).String(), f.pool.Gateway.String(), f.pool.Vlan
+		}
+		out[k] = e
+	}
+	return out
+}
+
+// VerifTables reports, per address, membership in the allocated and unallocated tables.
+func VerifTables(i IPAM, ip string) (inAlloc, inUnalloc bool) {
+	ci := i.(*crdIpam)
+	_, inAlloc = ci.allocatedFIPs[ip]
+	_, inUnalloc = ci.unallocatedFIPs[ip]
+	return
+}
+
+// VerifRotate marks the free table so that ranging over it starts at a nondeterministic entry.
+func VerifRotate(i IPAM) {
+	// loops whose outcome depends on the iteration order: first free match / first match by key
+	verifRotateMap(i.(*crdIpam).unallocatedFIPs, "AllocateInSubnet")
+}
+
+// VerifAttrOf decodes the attribute text of a stored object.
+func VerifAttrOf(obj *v1alpha1.FloatingIP) (node, uid string) { return vAttrOf(obj) }
+
+// VerifAttrText encodes node/uid as the store does.
+func VerifAttrText(node, uid string) string { return vAttrText(node, uid) }
+
+// VerifHandleFIPEvent delivers a FloatingIP watch event (add=true / delete) to the IPAM.
+func VerifHandleFIPEvent(i IPAM, obj *v1alpha1.FloatingIP, add bool) error {
+	if add {
+		return i.(*crdIpam).handleFIPAssign(obj)
+	}
+	return i.(*crdIpam).handleFIPUnassign(obj)
 }
